@@ -343,8 +343,9 @@ func c20StartClass(a, rng int64) string {
 
 func init() {
 	p := &core.Property{
-		ID:   "C20",
-		Rule: "histories over {Allocate, Allocate_inRange(a,b), FreeID(x)}: (i) every sequence up to depth d over the full alphabet (all 0<=a<=b<=max+1, all x in [min-1,max+1]) on ranges of size 1..4 with min in {0,1,5}; (ii) every sequence up to depth D over the reduced alphabet on ranges of size 1..3; (iii) random histories of length 1000 on ranges up to 64. Each event is judged against a live-set model together with the hooked internal state (H1). Non-trivial = the history contains an allocation that follows a free of a live id or an exhaustion; distinct by the operation sequence.",
+		ID:           "C20",
+		StallSeconds: 30, // every oracle ticks the journal at least every 1024 events
+		Rule:         "histories over {Allocate, Allocate_inRange(a,b), FreeID(x)}: (i) every sequence up to depth d over the full alphabet (all 0<=a<=b<=max+1, all x in [min-1,max+1]) on ranges of size 1..4 with min in {0,1,5}; (ii) every sequence up to depth D over the reduced alphabet on ranges of size 1..3; (iii) random histories of length 1000 on ranges up to 64. Each event is judged against a live-set model together with the hooked internal state (H1). Non-trivial = the history contains an allocation that follows a free of a live id or an exhaustion; distinct by the operation sequence.",
 		Assumptions: []string{
 			"arguments are non-negative and min <= max (the property's quantifier)",
 			"Allocate_inRange results are required to be in the allocator's bounds and fresh, not inside the requested sub-range (the statement asks no more)",
